@@ -218,6 +218,18 @@ func (s *Session) Transcript(max int) string {
 	return sb.String()
 }
 
+// TxnsSnapshot returns a copy of the transaction list that is safe to take while the session is
+// still running (transactions are appended and completed under the session mutex).
+func (s *Session) TxnsSnapshot() []Txn {
+	s.mu.Lock()
+	defer s.mu.Unlock()
+	out := make([]Txn, 0, len(s.Txns))
+	for _, t := range s.Txns {
+		out = append(out, *t)
+	}
+	return out
+}
+
 // Commits returns the committed transactions.
 func (s *Session) Commits() []*Txn {
 	var out []*Txn
@@ -734,7 +746,9 @@ func (s *Server) serve(rawConn net.Conn, implicitTLS bool, sess *Session) {
 				continue
 			}
 			t := &Txn{N: len(sess.Txns) + 1, From: cmd.path, FromParams: cmd.params}
+			sess.mu.Lock()
 			sess.Txns = append(sess.Txns, t)
+			sess.mu.Unlock()
 			checkParams(sess, "MAIL", cmd.params, caps, esmtp)
 			code := send("250 2.1.0 sender ok [" + step + "]")
 			if code == -1 {
@@ -810,8 +824,10 @@ func (s *Server) serve(rawConn net.Conn, implicitTLS bool, sess *Session) {
 				limit = sc.DropInData
 			}
 			payload, terminated, aborted := c.readData(limit, sc.StallData && thisTxn, s)
+			sess.mu.Lock()
 			txn.Payload = payload
 			txn.Terminated = terminated
+			sess.mu.Unlock()
 			if aborted {
 				return
 			}
@@ -824,15 +840,18 @@ func (s *Server) serve(rawConn net.Conn, implicitTLS bool, sess *Session) {
 			sess.Steps = append(sess.Steps, eod)
 			o = sc.outcome(eod)
 			step = eod
+			// the commit is recorded before the reply goes out, so a client that has read the reply
+			// can rely on seeing it
+			willCommit := o.Kind == "ok" || ((o.Kind == "reply" || o.Kind == "dropafter") && o.Code >= 200 && o.Code < 300)
+			sess.mu.Lock()
+			txn.Committed = willCommit
+			sess.mu.Unlock()
 			code = send("250 2.0.0 queued [" + eod + "]")
 			txn.EODCode = code
 			if code == -1 {
 				txn.EODCode = 0
 				inTxn = false
 				return
-			}
-			if code >= 200 && code < 300 {
-				txn.Committed = true
 			}
 			lastEOD = sess.counts["MAIL"]
 			inTxn, txn = false, nil
